@@ -55,7 +55,7 @@ def pre_build():
 
 
 def cases(rng, tier):
-    return P.gen_cases(rng, tier, 260 if tier == "quick" else 3500)
+    return P.gen_cases(rng, tier, 260 if tier == "quick" else 2800)
 
 
 def search_cases(rng, tier):
